@@ -7,6 +7,7 @@ import dataclasses
 import inspect
 from collections import Counter, defaultdict
 from collections.abc import Callable  # noqa: TC003 (sphinx needs unconditional import)
+from copy import deepcopy
 from enum import Enum
 from functools import cache
 from itertools import chain
@@ -130,7 +131,7 @@ class _EvalTransformer(ast.NodeTransformer):
                             ast.Expr(
                                 ast.Call(
                                     ast.Name(id="offdiag", ctx=ast.Load()),
-                                    [node.body[0].value],
+                                    [deepcopy(node.body[0].value)],
                                     [],
                                 )
                             )
@@ -383,6 +384,7 @@ class _FunctionTransformer(ast.NodeTransformer):
         Inserts the index as the last argument, preceded by all series passed as arguments.
         The series arguments are string literals, which are transformed to `series["arg"]`.
         """
+        self.generic_visit(node)  # Transform nested function calls first.
         node.args = [
             *(
                 _LiteralTransformer._to_series(arg)
